@@ -116,9 +116,22 @@ func (e *ExchangeJSightSchema) processAllOf(uut *StringSet) error {
 	return e.exchangeContent.processAllOf(uut, e.catalogUserTypes)
 }
 
+// exampleMu serializes the example generation of the jsight-schema-core library. The library
+// builds examples in pooled buffers and returns a slice of a buffer which was already put
+// back into the pool, so concurrent generations (even for independent catalogs) could
+// overwrite the results of each other.
+var exampleMu sync.Mutex
+
 func (e *ExchangeJSightSchema) Example() ([]byte, error) {
-	// TODO once
-	return e.JSchema.Example()
+	exampleMu.Lock()
+	defer exampleMu.Unlock()
+
+	b, err := e.JSchema.Example()
+	if err != nil {
+		return nil, err
+	}
+	// The copy is made while the lock is held, see above.
+	return append([]byte(nil), b...), nil
 }
 
 func (e *ExchangeJSightSchema) MarshalJSON() ([]byte, error) {
